@@ -1416,9 +1416,13 @@ impl StoreWorkload {
             // unusual but legal sample names (they come from file names when building from
             // positional arguments): a space, a dot, a name that is a prefix of another
             let i = rng.below(n);
-            samples[i].name = match rng.below(3) {
+            samples[i].name = match rng.below(5) {
                 0 => format!("s {i}"),
                 1 => format!("s{}.v2", (i + 1) % n),
+                // a comma, with the two parts being names of other samples, and other punctuation
+                // that a shell-less command line passes through unchanged
+                2 => format!("s{},s{}", (i + 1) % n, (i + 2) % n),
+                3 => format!("s{i}{}x", ["=", ";", ":", "+", "#"][rng.below(5)]),
                 _ => format!("s{}", (i + 1) % n * 10 + 1),
             };
             samples[i].path = None;
@@ -1518,7 +1522,8 @@ impl StoreWorkload {
                 while pool.len() > 1 {
                     let take = rng.range(2, pool.len().min(4));
                     let ins: Vec<String> = pool.drain(..take).collect();
-                    let out = newname("m");
+                    // (now and then an output prefix with a dot in it)
+                    let out = if rng.chance(10) { format!("{}.v{}", newname("m"), rng.range(1, 9)) } else { newname("m") };
                     let names: Vec<String> = ins.iter().flat_map(|f| files[f].clone()).collect();
                     ops.push(Op::Merge { out: out.clone(), inputs: ins });
                     files.insert(out.clone(), names);
@@ -1834,7 +1839,7 @@ impl Workload for StoreWorkload {
         vec![
             "which split k-mers a FASTA contains is taken from the real builder (C01 is not claimed): the model adopts the content of every freshly built file".into(),
             "the inspector reads files with MergeSkaArray::<u128>::load (then ::<u64>) and iter()".into(),
-            "parameters are generated only where the documentation decides the outcome (DESIGN.md 1.6: exact thresholds, ambig-as-missing only with threshold >= 1, no-gap-only-sites only with no-const, unique sample names)".into(),
+            "parameters are generated only where the documentation decides the outcome (exact thresholds written as plain decimals; --filter-ambig-as-missing with a threshold >= 1, and on its own with threshold 0, where the frequency filter is off and nothing may be removed; no-gap-only-sites only with no-const); each focus judges only the operations of its own property (DESIGN.md 15)".into(),
         ]
     }
     fn generate(&self, seed: u64, _index: u64, tier: Tier) -> StoreCase {
